@@ -147,11 +147,11 @@ def run(chk):
                 specs.append({k: (None if i != len(names) - 1 else 'dirichlet') for i, k in enumerate(names)})
                 specs.append({k: ('von neumann' if i % 2 == 0 else 'dirichlet') for i, k in enumerate(names)})
             for kind in (('PINN', 'SPINN') if thorough else ('PINN',)):
-                for spec in specs:
-                    cfg = {"loss": eq_type, "net": kind, "d": d, "per_facet": spec}
+                for spec, m_u, dim in [(sp, 1, None) for sp in specs] + [(specs[0], 2, 1), (specs[1], 3, 2)]:
+                    cfg = {"loss": eq_type, "net": kind, "d": d, "per_facet": spec, "outputs": m_u, "dim": dim}
 
-                    def go(eq_type=eq_type, kind=kind, d=d, spec=spec, time=time, names=names):
-                        S, found = evaluate(eq_type, kind, d, None, 1, None, 'vector', per_facet=spec)
+                    def go(eq_type=eq_type, kind=kind, d=d, spec=spec, time=time, names=names, m_u=m_u, dim=dim):
+                        S, found = evaluate(eq_type, kind, d, None, m_u, dim, 'vector', per_facet=spec)
                         funs = S.loss.fields['omega_boundary_fun']
                         rows = None if (d == 1 and not time) else "Bb"
                         exp = Poly()
@@ -159,7 +159,7 @@ def run(chk):
                             if spec[k] is None:
                                 continue
                             exp = exp + expected_facet(S, kind, 'dirichlet' if spec[k] == 'dirichlet' else 'neumann',
-                                                       d, f, funs[k], [0], time, rows, S.w['boundary_loss'])
+                                                       d, f, funs[k], [0 if dim is None else dim], time, rows, S.w['boundary_loss'])
                         exp = canon(exp, keep_deps=keep_facet)
                         if found != exp:
                             raise Violation("boundary_loss", str(found), str(exp))
